@@ -396,6 +396,10 @@ def correspondence(ctx):
             fs = [np.concatenate([d for _, d in ds]) for ds in seq]
             scale = max(1.0, max(np.abs(f).max() for f in fs)) * max(1.0, np.linalg.norm(A, 2) ** 2)
             tol = 1e-9 * scale
+            # numpy's inverse certified against the contract: |G·AᵀA − 1|, |AᵀA·G − 1| ≤ 1e-8 entrywise (cond ≤ 1e3)
+            if n <= (40 if ctx.quick else 90):
+                i_inv = drv.ask("invcert", mm, n, mat_text(G), Atxt, "1/100000000")
+                pend.append(("invcert", (spec, sched), "true", i_inv))
             i_cert = drv.ask("cert", mm, n, Atxt, btxt, q(tol), vecs_text(fs), vecs_text(impl[1]))
             pend.append(("cert", (spec, sched, labels, tol), ",".join(["true"] * len(fs)), i_cert))
             if n <= lim_exact:
@@ -480,6 +484,12 @@ def correspondence(ctx):
             # singular AᵀA raises or returns garbage — there is no `G` satisfying the contract to hand to the
             # model, so only the guard verdict is compared
             ctx.count("corr guard passes a wide matrix (impl: %s)" % (impl[1] if impl[0] == "err" else "answers"))
+            if impl == ("err", "singular"):
+                # np.linalg.inv raised LinAlgError: the model's `estSeqInv … none …`, with data and with an empty sequence
+                i = drv.ask("estseqnone", mm, n, rank, mat_text(A), qlist(b), seq_text([ds]))
+                pend.append(("estseqnone", (kind, flag, "wide"), impl, i))
+                i = drv.ask("estseqnone", mm, n, rank, mat_text(A), qlist(b), seq_text([]))
+                pend.append(("estseqnone", (kind, flag, "wide-empty"), impl_seq(qt, []), i))
             return
         Gd = np.zeros((n, n))
         i = drv.ask("estseq", mm, n, rank, mat_text(Gd), mat_text(A), qlist(b), seq_text([ds]))
@@ -497,7 +507,7 @@ def correspondence(ctx):
     for op, inp, impl, i in pend:
         ctx.corr_ops.add(op)
         rep = out[i]
-        if op in ("fullrank", "cert"):
+        if op in ("fullrank", "cert", "invcert"):
             if rep != impl:
                 ctx.disagree(op, inp, impl, rep)
             continue
